@@ -13,7 +13,7 @@ RULE = ("solved mazes from every real generator (gen_dfs, gen_wilson, gen_percol
         "BFS shortest path, plus self-avoiding non-shortest solutions; each maze x all 8 (remove_isolated_cells, extend_pixels, endpoints_as_open) combinations, "
         "every pixel compared; plus random RGB images (walls, isolated pixels on border/corners, marker colours) through _remove_isolated_cells/_extend_pixels alone; "
         "plus RasterizedMazeDataset batches with random index lists (repeats, negative, out of range, None, empty). non-trivial = solution of >=2 cells; "
-        "distinct = distinct (maze, solution, options)")
+        "distinct = distinct (maze, solution, options); later additions: short solutions, options switched on a live dataset, the item overwritten by the caller and asked for again")
 ASSUMPTIONS = ["torch.tensor/np.array/torch.stack only re-box the arrays (checked: every value compared after the real calls)",
                "np.repeat / np.pad / boolean-mask assignment behave as documented (validated on every case by exact comparison)",
                "mazes are built through the public SolvedMaze constructor with a solution that walks through open connections (what the dataset generator produces)"]
